@@ -56,10 +56,12 @@ def run(ctx):
     chk.instance("C15/R1", "no early exit (`?`, return, break) while iterating over the candidates (%d paths explored)" % len(paths), t["def"], loc_of(t.get("sp")),
                  holds=bool(paths) and not early, key="C15/R1 Policies::evaluate early-exit")
     r2_workspace(chk, fx)
+    r2_agent_side(chk, fx)
     r2_dependency(ctx, chk, fx)
     r3_evaluator_survives(ctx, chk, fx)
     r4_compare_tolerates_failure(chk, fx)
     r5_statement_readers_consume(chk, fx)
+    r6_pipeline_buffer(chk, fx)
 
 
 def r3_evaluator_survives(ctx, chk, fx):
@@ -152,13 +154,45 @@ class _Rename:
         return self.chk.instance(rule, what, fn, loc, holds, key, detail)
 
 
+_CONTAINED = {}
+
+
 def contained(fx):
-    """Is the per-candidate evaluation wrapped in catch_unwind?"""
-    for n, b in fx.mir.items():
-        if n == c03.eval_cand(fx) or n.startswith(c03.eval_cand(fx) + "::{closure"):
-            if b.calls_to("std::panic::catch_unwind"):
-                return True
-    return False
+    """Is the per-candidate evaluation enclosed by catch_unwind?  On every explored path of Candidate::evaluate the call of the RPSL
+    evaluator lies inside the closure handed to std::panic::catch_unwind (directly or in a helper), and the panicked outcome is
+    handled (it does not resume the unwind)."""
+    if id(fx) in _CONTAINED:
+        return _CONTAINED[id(fx)]
+    from vlib import absint as A
+    EC = c03.eval_cand(fx)
+
+    def hook(fn, args, node, interp):
+        if fn.endswith("RpslEvaluator::evaluate"):
+            interp.trace.append(("evaluator",))
+            return ("sym", "EVALUATED")
+        if T.short(fn, 2) in ("panic::resume_unwind",):
+            interp.trace.append(("resumed",))
+        return None
+    paths = A.Interp(fx, hook=hook, crates=(AGENT, "bgpfu")).explore(EC)
+    n = 0
+    ok = bool(paths)
+    for p in paths:
+        depth = 0
+        for e in p.trace:
+            if e[0] == "catch-enter":
+                depth += 1
+            elif e[0] == "catch-exit":
+                depth -= 1
+            elif e[0] == "evaluator":
+                n += 1
+                ok = ok and depth > 0
+            elif e[0] == "resumed":
+                ok = False
+        if p.end == "abort" and any(e[0] == "unwind" for e in p.trace):
+            ok = False
+    _CONTAINED.clear()
+    _CONTAINED[id(fx)] = ok and n > 0
+    return _CONTAINED[id(fx)]
 
 
 def r2_workspace(chk, fx):
@@ -184,6 +218,118 @@ def r2_workspace(chk, fx):
                              detail="valid RPSL reaching it panics; the panic aborts the whole run, not just this policy")
     chk.instance("C15/R2", "no explicit panic / unwrap in RpslEvaluator's resolver and evaluator methods (%d bodies)" % len(bodies),
                  "bgpfu::query", None, holds=True)
+
+
+IRRC_DEFAULT_CAPACITY = {"0.1.0": 1 << 20}
+
+
+def r6_pipeline_buffer(chk, fx):
+    """irrc reads each response into the pipeline's fixed buffer and needs a whole status line (an `F <message>` error line can be long)
+    to fit: with a line longer than the buffer its read loop makes no progress, and the evaluation never returns — no error, no panic,
+    nothing catch_unwind or the error handling could contain; the one evaluation task hangs and no policy is updated.  The library's
+    default capacity (1 MiB) is what the resolvers are specified against; a pipeline created with less narrows the responses the
+    evaluator survives.  Every `Connection::pipeline_with_capacity(c)` in the evaluator: c is a constant not below the default."""
+    ver = lock_version("irrc")
+    default = IRRC_DEFAULT_CAPACITY.get(ver)
+    n = 0
+    for name, b in sorted(fx.mir.items()):
+        if b.crate != "bgpfu" or "::tests::" in name:
+            continue
+        for c in b.calls():
+            if c.macro or not c.is_fn("irrc::Connection::pipeline_with_capacity", "Connection::pipeline_with_capacity"):
+                continue
+            n += 1
+            if default is None:
+                raise F.AnchorLost("irrc %s: default pipeline capacity not audited" % ver)
+            a = c.args[1] if len(c.args) > 1 else {}
+            val = a.get("i") if a.get("c") == "const" else None
+            ok = isinstance(val, int) and val >= default
+            chk.instance("C15/R6", "pipeline buffer of %s bytes is not below irrc's default (%d)" % (val if val is not None else "a computed number of", default), name, c.loc(),
+                         holds=ok, key="C15/R6 pipeline-capacity-below-default %s" % T.strip_generics(name.split("::{closure")[0]),
+                         detail=None if ok else "an IRR response line longer than the buffer makes irrc's read loop spin: the evaluation never returns")
+    chk.instance("C15/R6", "pipelines of the evaluator use the library's default buffer (%d explicit capacities)" % n, "bgpfu::query", None, holds=True)
+
+
+PANICKY_STD = (
+    "String::truncate", "String::remove", "String::insert", "String::insert_str", "String::split_off", "String::drain", "String::replace_range",
+    "str::split_at", "str::split_at_mut", "Vec::remove", "Vec::swap_remove", "Vec::insert", "Vec::split_off", "Vec::drain", "Vec::swap",
+    "slice::split_at", "slice::copy_from_slice", "slice::swap", "slice::chunks", "slice::windows", "slice::chunks_exact", "VecDeque::swap",
+    "Option::unwrap", "Option::expect", "Result::unwrap", "Result::expect", "Result::unwrap_err", "Result::expect_err",
+    "RefCell::borrow", "RefCell::borrow_mut", "Index::index", "IndexMut::index_mut", "Iterator::step_by", "char::from_digit", "Duration::from_secs_f64",
+    "Duration::from_secs_f32", "Instant::duration_since", "Layout::array", "thread::spawn", "Handle::current", "Handle::block_on", "Runtime::block_on")
+
+
+def r2_agent_side(chk, fx):
+    """What the agent itself does around one candidate's evaluation — logging the error, partitioning the result — is not inside the
+    catch_unwind that contains the evaluator: a panic there (a `truncate` on a byte offset, an index, an unwrap) unwinds out of the
+    iteration over the candidates and fails the run.  Over the agent's bodies reachable from Policies<Candidate>::evaluate, except
+    those only reached through the closure handed to catch_unwind: no call of a std function documented to panic on some input, no
+    explicit panic, no compiler-inserted check (index bound, arithmetic overflow, division)."""
+    roots = [c03.EVAL_POL]
+    seen, guarded = set(), set()
+    work = list(roots)
+    by_root = {}
+    for n, b in fx.mir.items():
+        if b.crate == AGENT:
+            by_root.setdefault(n.split("::{closure")[0], []).append(n)
+    # closures handed to catch_unwind (and what only they call) are contained
+    def closure_args_of_catch(b):
+        out = set()
+        for c in b.calls_to("std::panic::catch_unwind", "panic::catch_unwind"):
+            for a in c.args:
+                l = F.op_base(a)
+                if l is None:
+                    continue
+                for o in b.backward_origins(l, through_call=lambda x: x.is_fn("AssertUnwindSafe") or True, all_args=True):
+                    if o["k"] == "agg" and (o["rv"].get("closure") or o["rv"].get("coroutine")):
+                        out.add(o["rv"].get("closure") or o["rv"].get("coroutine"))
+                    if o["k"] == "arg":
+                        out.add(("param", o["l"]))
+        return out
+    n_sites = 0
+    while work:
+        fn = work.pop()
+        if fn in seen:
+            continue
+        seen.add(fn)
+        for n in by_root.get(fn, []) or ([fn] if fn in fx.mir else []):
+            b = fx.mir[n]
+            if n in guarded:
+                continue
+            contained_here = closure_args_of_catch(b)
+            chk.analysed(n)
+            for bi, bl in enumerate(b.blocks):
+                if bl.get("cleanup"):
+                    continue
+                t = bl["term"]
+                if t["k"] == "assert" and not (t.get("sp") or {}).get("m"):
+                    n_sites += 1
+                    chk.instance("C15/R2", "compiler-inserted check (%s) in %s, outside catch_unwind" % (t.get("msg"), T.short(T.strip_generics(n), 3)), n, loc_of(t.get("sp")),
+                                 holds=False, key="C15/R2 agent-side %s %s" % (T.strip_generics(n.split("::{closure")[0]), t.get("msg")),
+                                 detail="a failing check panics; outside catch_unwind the panic ends the whole evaluation task")
+            for c in b.calls():
+                mac = (c.macro or "").split("::")[-1]
+                if c.macro and mac not in PANIC_MACROS:
+                    continue
+                explicit = bool(c.macro) and c.is_fn("core::panicking::panic", "core::panicking::panic_fmt", "core::panicking::panic_explicit",
+                                                      "core::panicking::unreachable_display", "std::rt::begin_panic")
+                short = T.short(T.strip_generics(c.name()), 2)
+                if explicit or (not c.macro and short in PANICKY_STD):
+                    n_sites += 1
+                    what = "%s!()" % mac if explicit else short
+                    chk.instance("C15/R2", "%s in %s runs outside catch_unwind" % (what, T.short(T.strip_generics(n), 3)), n, c.loc(), holds=False,
+                                 key="C15/R2 agent-side %s %s" % (T.strip_generics(n.split("::{closure")[0]), what),
+                                 detail="panics for some inputs (see its documentation); outside catch_unwind the panic ends the whole evaluation task, not this policy's evaluation")
+                tgt = None if c.macro else (c.rdef if (c.rdef or "").split("::{closure")[0] in by_root else c.defn if (c.defn or "").split("::{closure")[0] in by_root else None)
+                if tgt is not None:
+                    work.append(tgt.split("::{closure")[0])
+            # closures of this body that are contained are skipped together with what only they reach (approximation: the closure body itself)
+            for x in contained_here:
+                if isinstance(x, str):
+                    guarded.add(x)
+    chk.instance("C15/R2", "the agent's own per-candidate code (%d bodies outside catch_unwind) has no panic site" % len([x for x in seen]), c03.EVAL_POL, None,
+                 holds=True)
+    chk.floor("C15/R2 agent-side bodies analysed", len(seen), 2)
 
 
 def r2_dependency(ctx, chk, fx):
